@@ -58,6 +58,11 @@ pub struct Runner {
     pub rt_flavor: String,
     pub scen_id: String,
     last_digest: Option<Vec<(String, String)>>,
+    /// Scenario flag "session": backups and deletes (unless marked "fresh") go through ONE long-lived
+    /// Archive handle, as a program embedding the library would use it; everything else, and steps
+    /// marked fresh, open the archive anew as each run of the command-line tool does.
+    session_on: bool,
+    session: Mutex<Option<(Archive, Arc<crate::intercept::SwitchIcpt>)>>,
 }
 
 /// Outcome of one API call.
@@ -378,6 +383,8 @@ impl Runner {
             log,
             src_tree: vec![],
             saved: vec![],
+            session_on: false,
+            session: Mutex::new(None),
             counter: 0,
             rt_flavor: "ct".into(),
             scen_id: String::new(),
@@ -431,6 +438,8 @@ impl Runner {
         self.counter = 0;
         self.scen_id = sc["id"].as_str().unwrap_or("?").to_string();
         self.rt_flavor = sc.get("rt").and_then(|x| x.as_str()).unwrap_or("ct").to_string();
+        self.session_on = sc.get("session").and_then(|x| x.as_bool()).unwrap_or(false);
+        *self.session.lock().unwrap() = None;
         tree::NOW_BASE.store(now_s() as i64, std::sync::atomic::Ordering::SeqCst);
         tree::BIG.store(sc.get("mode").and_then(|x| x.as_str()) == Some("big"), std::sync::atomic::Ordering::SeqCst);
         self.log.emit(json!({"ev": "scenario", "id": self.scen_id, "props": sc.get("props").cloned().unwrap_or(json!([])),
@@ -523,6 +532,7 @@ impl Runner {
             std::thread::sleep(std::time::Duration::from_millis(ms));
         }
         tree::remove_tree(&self.arch);
+        *self.session.lock().unwrap() = None;
         self.log.emit(json!({"ev": "new_archive", "rt": self.rt_flavor}));
         let icpt = ActorIcpt::new("init", &self.arch, self.log.clone(), Plan::default(), None);
         let mon = TestMonitor::arc();
@@ -635,6 +645,7 @@ impl Runner {
             tree::materialize(&self.src, &t).expect("re-materialize");
             self.src_tree = tree::project(&self.src).unwrap();
         }
+        *self.session.lock().unwrap() = None;
         self.log.emit(json!({"ev": "reset"}));
     }
 
@@ -648,6 +659,29 @@ impl Runner {
     }
 
     /// Run a backup of the current source. Returns the issued verbs of the call.
+    /// The Archive a backup/delete step runs on: the session handle (opened on first use, its
+    /// interceptor switched to this call's) or None for a fresh open.
+    fn session_archive(&self, st: &Value, icpt: &Arc<ActorIcpt>) -> Option<(Archive, Arc<crate::intercept::SwitchIcpt>)> {
+        if !self.session_on || st.get("fresh").and_then(|x| x.as_bool()).unwrap_or(false) {
+            return None;
+        }
+        let mut g = self.session.lock().unwrap();
+        if g.is_none() {
+            let sw = Arc::new(crate::intercept::SwitchIcpt::default());
+            sw.set(Some(icpt.clone()));
+            let t = Transport::local(&self.arch).with_interceptor(sw.clone());
+            let mon = TestMonitor::arc();
+            let out = run_call(&self.rt_flavor, &mon, || async move { Archive::open(t).await.map_err(|e| err_name(&e)) });
+            match out.val {
+                Some(a) => *g = Some((a, sw)),
+                None => return None,
+            }
+        }
+        let (a, sw) = g.as_ref().unwrap().clone();
+        sw.set(Some(icpt.clone()));
+        Some((a, sw))
+    }
+
     pub fn do_backup(&self, st: &Value, plan: Plan, sched: Option<Arc<Sched>>) -> Vec<String> {
         self.do_backup_from(st, plan, sched, &self.src, &self.src_tree, false)
     }
@@ -659,7 +693,7 @@ impl Runner {
         let (h, m, s, excl, owner) = Self::backup_options(st);
         let src_paths: BTreeSet<Vec<Vec<u8>>> = src_tree.iter().map(|n| n.p.clone()).collect();
         let injected = plan.crash_at.is_some() || !plan.fail.is_empty() || plan.fail_p > 0.0;
-        self.log.emit(json!({"ev": "call", "actor": actor, "fn": "backup", "brk": false, "follow": !tree::BIG.load(std::sync::atomic::Ordering::SeqCst), "H": h.min(1_000_000_000), "M": m.min(1_000_000_000),
+        self.log.emit(json!({"ev": "call", "actor": actor, "fn": "backup", "brk": false, "follow": !tree::BIG.load(std::sync::atomic::Ordering::SeqCst) && st.get("mutate_during").is_none(), "H": h.min(1_000_000_000), "M": m.min(1_000_000_000),
             "S": s.min(1_000_000_000), "excl": excl, "match": match_facts(&excl, &src_paths), "owner": owner,
             "bands": [], "dry": false, "injected": injected, "own_tree": own_tree,
             "tree": if own_tree { tree::tree_json(src_tree) } else { json!([]) }}));
@@ -676,8 +710,13 @@ impl Runner {
         let during: Vec<(String, PathBuf, i64)> = st.get("mutate_during").and_then(|x| x.as_array()).map(|a| {
             a.iter().filter_map(|m| Some((m["after"].as_str()?.to_string(), src_dir.join(m["path"].as_str()?.trim_start_matches('/')), m["len"].as_i64()?))).collect()
         }).unwrap_or_default();
+        let sess = self.session_archive(st, &icpt);
+        let sess_a = sess.as_ref().map(|x| x.0.clone());
         let out = run_call(&self.rt_flavor, &mon, || async move {
-            let archive = Archive::open(t).await.map_err(|e| err_name(&e))?;
+            let archive = match sess_a {
+                Some(a) => a,
+                None => Archive::open(t).await.map_err(|e| err_name(&e))?,
+            };
             let exclude = Exclude::from_strings(excl2.iter()).map_err(|e| err_name(&e))?;
             let options = BackupOptions {
                 exclude,
@@ -703,6 +742,9 @@ impl Runner {
             };
             conserve::backup(&archive, &src, &options, mon2).await.map_err(|e| err_name(&e))
         });
+        if let Some((_, sw)) = &sess {
+            sw.set(None);
+        }
         if let Some(s) = &sched {
             s.mark_done(&actor);
         }
@@ -739,10 +781,18 @@ impl Runner {
         let t = self.transport(icpt.clone());
         let mon2 = mon.clone();
         let ids: Vec<BandId> = bands.iter().map(|b| BandId::new(&[*b])).collect();
+        let sess = self.session_archive(st, &icpt);
+        let sess_a = sess.as_ref().map(|x| x.0.clone());
         let out = run_call(&self.rt_flavor, &mon, || async move {
-            let archive = Archive::open(t).await.map_err(|e| err_name(&e))?;
+            let archive = match sess_a {
+                Some(a) => a,
+                None => Archive::open(t).await.map_err(|e| err_name(&e))?,
+            };
             archive.delete_bands(&ids, &DeleteOptions { dry_run: dry, break_lock }, mon2).await.map_err(|e| err_name(&e))
         });
+        if let Some((_, sw)) = &sess {
+            sw.set(None);
+        }
         if let Some(s) = &sched {
             s.mark_done(&actor);
         }
